@@ -323,11 +323,11 @@ Proof.
   destruct (ty_in [$"css_property"; $"css_vendor_property"; $"css_user_property"] t) eqn:E1; [apply (p_decl_seg _ IH f t r ns rest); [nb | exact H]|].
   destruct (is_ty ($"less_variable") t) eqn:E2; [apply (p_vardecl_seg _ IH f t r ns rest); [nb | exact H]|].
   destruct (is_ty ($"css_media") t) eqn:E3; [apply (p_media_seg _ IH t r ns rest); [nb | exact H]|].
-  destruct (is_ty ($"css_keyframes") t || is_ty ($"css_font_face") t) eqn:E4.
-  { apply (p_atblock_seg _ IH t r ns rest); [|exact H]. apply orb_true_iff in E4 as [E4|E4]; nb. }
+  destruct (is_ty ($"css_keyframes") t || is_ty ($"css_font_face") t || is_ty ($"css_viewport") t) eqn:E4.
+  { apply (p_atblock_seg _ IH t r ns rest); [|exact H]. apply orb_true_iff in E4 as [E4|E4]; [apply orb_true_iff in E4 as [E4|E4]|]; nb. }
   destruct (is_ty ($"css_charset") t) eqn:E5; [apply (p_charset_seg _ IH t r ns rest); [nb | exact H]|].
   destruct (is_ty ($"css_import") t) eqn:E6; [apply (p_import_seg _ IH t r ns rest); [nb | exact H]|].
-  destruct (ty_in [$"css_namespace"; $"css_page"; $"css_viewport"] t); [discriminate|].
+  destruct (ty_in [$"css_namespace"; $"css_page"] t); [discriminate|].
   destruct (is_ty ($"css_class") t) eqn:E7; [apply (p_class_seg _ IH f t r ns rest); [nb | exact H]|].
   exact (p_rule_seg _ IH _ _ _ H).
 Qed.
